@@ -3,7 +3,7 @@ from engine import cfg
 from rules import lib_const, lib_call
 from rules.common import loc_of
 
-LEVEL = "other"
+LEVEL = "proof"
 FN = "parse::forward_to_next_storage_header"
 
 
